@@ -815,6 +815,11 @@ class Escape:
             if len(node.args) == 1:
                 out.append(("ValueError", text))
             return out
+        if d == "unicodedata.normalize":
+            # ValueError only for an unknown form name
+            if not (node.args and isinstance(node.args[0], ast.Constant) and node.args[0].value in ("NFC", "NFKC", "NFD", "NFKD")):
+                out.append(("ValueError", text))
+            return out
         if d in ("min", "max"):
             has_default = any(k.arg == "default" for k in node.keywords)
             if len(node.args) == 1 and not has_default:
